@@ -324,7 +324,8 @@ impl<T: SharedResource> SharedResourceConstraint<T> {
                             .and_then(|job| (self.resource_demand_fn)(job.as_ref()))
                             .unwrap_or_default();
 
-                        if resource_available.partial_cmp(&resource_demand) == Some(Ordering::Less) {
+                        // NOTE loads with several dimensions are only partially ordered: the demand has to fit in each one
+                        if !resource_available.can_fit(&resource_demand) {
                             ConstraintViolation::skip(self.violation_code)
                         } else {
                             ConstraintViolation::success()
